@@ -141,6 +141,8 @@ def variants(line: str) -> Iterator[Tuple[str, str]]:
             continue
         yield k, v
     yield "trailing-space", line + "  "
+    yield "trailing-comment", line + "  # note: keep = 1"
+    yield "trailing-comment-tight", line + "#x"
 
 
 def tasks() -> List[Tuple[str, int, str, str, str]]:
